@@ -35,6 +35,17 @@ K2 = 2
 K3 = 3
 '''
 
+CLOSURES = '''
+def _make_scale(kk):
+    @fp.fpy
+    def scale(z):
+        return z * kk
+    return scale
+
+d2 = _make_scale(2)
+d3 = _make_scale(3)
+'''
+
 # named contexts usable in `with`: (text, exact_only) -- exact_only: only + - * / neg abs min max and comparisons inside
 CONTEXTS = [
     ('C3', False), ('C5', False), ('S4', False), ('F8', False), ('F8N', False), ('FX', False), ('MF', False),
@@ -339,6 +350,8 @@ class Gen:
         return new
 
     def s_freevar(self, sc, ind, depth):
+        if getattr(self, '_shadowing', False) and not self.in_helper:
+            return self.s_assign(sc, ind, depth)
         new = _Scope(sc)
         v = self.fresh('v')
         self.features.add('free_var')
@@ -474,10 +487,21 @@ class Gen:
 
     def s_if(self, sc, ind, depth):
         self.features.add('if')
+        # one arm may end in a return: what follows the statement then sees only the other arm
+        which = None
+        if self.ret_type is not None and self.rng.random() < self.p.get('return_in_arm_prob', 0):
+            which = self.rng.choice(['a', 'b'])
+            self.features.add('return_in_arm')
         self.emit(ind, f'if {self.boolean(sc, 2)}:')
         a = self.block(_Scope(sc), ind + 1, depth - 1, 3)
+        if which == 'a':
+            self.emit(ind + 1, f'return {self.ret_expr(a)}')
         self.emit(ind, 'else:')
         b = self.block(_Scope(sc), ind + 1, depth - 1, 3)
+        if which == 'b':
+            self.emit(ind + 1, f'return {self.ret_expr(b)}')
+        if which is not None:
+            return _Scope(b if which == 'a' else a)
         new = _Scope(sc)
         for v, t in a.vars.items():
             if v in b.vars and b.vars[v] == t:
@@ -549,6 +573,10 @@ class Gen:
                     self.emit(ind, f'for {i} in range(0, {rng.choice([4, 5, 7])}, {rng.choice([2, 3])}):')
             body.vars[i] = 'R'
         derived = 'zip(' in self.lines[-1] or 'enumerate(' in self.lines[-1]
+        if sc.of('I') and rng.random() < self.p.get('loop_writes_int_arg_prob', 0):
+            # the body rebinds an integer argument (a loop operator may have been handed it as a chunk size)
+            self.emit(ind + 1, f'{rng.choice(sc.of("I"))} = {rng.choice([1, 2, 3])}')
+            self.features.add('loop_writes_int_arg')
         self.loop_depth += 1
         self.in_derived_iter += 1 if derived else 0
         self.block(body, ind + 1, depth - 1, 3)
@@ -667,6 +695,11 @@ class Gen:
         self.lines = [HEADER]
         for k in range(rng.randint(0, self.p['helpers'])):
             self.helper(k)
+        if rng.random() < self.p.get('closure_helpers_prob', 0):
+            # two functions from one factory: same captured name, different values
+            self.lines.append(CLOSURES)
+            self.helpers += [('d2', ('R',), 'R', False), ('d3', ('R',), 'R', False)]
+            self.features.add('closure_helpers')
         saved_min = dict(self.min_len)
         self.min_len = {}
         arg_types = self.p['args']
@@ -688,6 +721,16 @@ class Gen:
             self.counter = 0
         self.emit(0, '@fp.fpy')
         self.emit(0, f'def f({", ".join(names)}):')
+        self._shadowing = False
+        if self.helpers and rng.random() < self.p.get('shadow_freevar_prob', 0):
+            # a local of the caller named like a module-level constant the helpers read (K2 / K3):
+            # inlining must not let the helper's free variable be captured by it
+            nm = rng.choice(['K2', 'K3'])
+            self.emit(1, f'{nm} = {self.real(sc, 1)}')
+            sc = _Scope(sc)
+            sc.vars[nm] = 'R'
+            self._shadowing = True
+            self.features.add('local_shadows_free_var')
         sc = self.block(sc, 1, self.p['max_depth'], self.p['max_stmts'])
         self.emit(1, f'return {self.ret_expr(sc)}')
         src = '\n'.join(self.lines) + '\n'
